@@ -321,7 +321,11 @@ macro_rules! impl_rank_small_sel {
                     // with value given by the number of bits. Thus, we must
                     // handle the case in which inv_idx is the the last
                     // inventory entry as a special case.
-                    last_block_idx = self.len().div_ceil(Self::BLOCK_BIT_SIZE);
+                    // The search must not go beyond the superblock containing
+                    // the rank, as absolute counters restart at each superblock
+                    last_block_idx = self.len().div_ceil(Self::BLOCK_BIT_SIZE).min(
+                        (upper_block_idx + 1) * (Self::SUPERBLOCK_BIT_SIZE / Self::BLOCK_BIT_SIZE),
+                    );
                 }
 
                 debug_assert!(block_idx < counts.len());
